@@ -140,6 +140,48 @@ def all_kind_trees(rng, maxdepth):
     return [gen_tree(rng, maxdepth if k in CONTAINER_KINDS else 1, k) for k in LEAF_KINDS + CONTAINER_KINDS]
 
 
+STRING_LIMITS = [(2, 4), (3, 3), (2, 10), (4, 6), (1, 3), (5, 8), (1, 2), (6, 6)]
+BLOB_LIMITS = [(2, 4), (3, 3), (1, 8), (4, 6), (5, 5)]
+
+
+def length_limited_trees(rng, n):
+    """n trees whose point is a string / blob leaf with a non-trivial minimum AND maximum length (both character sets
+    for strings), at the root or one level down in each container kind - the length clause of the value set"""
+    out = []
+    for i in range(n):
+        if i % 4 == 3:
+            lo, hi = rng.choice(BLOB_LIMITS)
+            leaf = {'t': 'blob', 'min': lo, 'max': hi}
+        else:
+            lo, hi = rng.choice(STRING_LIMITS)
+            leaf = {'t': 'string', 'min': lo, 'max': hi, 'utf8': i % 4 != 2}
+        wrap = rng.choice(['root', 'root', 'array', 'tuple', 'struct'])
+        if wrap == 'array':
+            leaf = {'t': 'array', 'elem': leaf, 'min': 0, 'max': 3}
+        elif wrap == 'tuple':
+            leaf = {'t': 'tuple', 'elems': [gen_leaf(rng, rng.choice(['int', 'bool', 'enum'])), leaf]}
+        elif wrap == 'struct':
+            leaf = {'t': 'struct', 'members': [['a', leaf], ['b', gen_leaf(rng, 'int')]], 'optional': rng.choice([[], ['b'], ['a', 'b']]),
+                    'client': False}
+        out.append(leaf)
+    return out
+
+
+def extreme_scaled_trees(rng, n):
+    """n scaled types (at the root or in an array) at the ends of the float range: limits at +-max (their grid value may
+    overflow - then every value is refused), limits / scale beyond the float range, a huge scale, the smallest scale"""
+    cat = [(7.0, -FMAX, 0.0), (3.0, 0.0, FMAX), (0.1, -FMAX, FMAX), (1e-3, -1e300, 1e300), (1e300, -FMAX, FMAX),
+           (1e300, 0.0, 1e301), (5e-324, 0.0, 5e-323), (5e-324, -1.0, 1.0), (1e-5, 0.0, 1e304), (2.0 ** 970, -FMAX, FMAX),
+           (0.25, -2.0 ** 1022, 2.0 ** 1022), (1.0, -FMAX, FMAX)]
+    out = []
+    for _ in range(n):
+        scale, lo, hi = rng.choice(cat)
+        leaf = {'t': 'scaled', 'scale': fj(scale), 'min': fj(lo), 'max': fj(hi), 'ar': fj(rng.choice([scale, 0.0])),
+                'rr': fj(rng.choice([1.2e-7, 0.0]))}
+        out.append(leaf if rng.random() < 0.7 else {'t': 'array', 'elem': leaf, 'min': 0, 'max': 2})
+    return out
+
+
 # ---------------------------------------------------------------------------------------------
 # valid values (Python side, canonical form: what validation returns)
 # ---------------------------------------------------------------------------------------------
@@ -206,7 +248,11 @@ def gen_valid(rng, tree):
         if klo <= 0 <= khi:
             cands.append(0)
         k = rng.choice(cands)
-        return float(k * _f(tree['scale']))
+        try:
+            x = float(k * _f(tree['scale']))
+        except OverflowError:
+            return None
+        return x if math.isfinite(x) else None
     if t == 'bool':
         return rng.random() < 0.5
     if t == 'enum':
@@ -455,27 +501,59 @@ def leaf_paths(tree, value, kinds):
 SPECIAL_CHARS = ['\x00', '\x01', '\x7f', '\x80', '\xff', '\ud7ff', '\ue000', '\uffff', '\U00010000', '\U0010ffff', '"', '\\', '\n']
 
 
-def length_variants(rng, lt, wire):
-    """strings / blobs of length exactly min-1, min, min+1, max-1, max, max+1, and strings of a valid length holding
-    one special character (NUL, DEL, first non-ASCII, U+FFFF, the characters around the surrogate block, astral)"""
+# characters (or short sequences) for which the measures "code points", "UTF-8 bytes", "UTF-16 code units",
+# "characters after normalisation / case mapping" differ: (text, code points)
+WIDE_UNITS = [('\xfc', 1),            # 2 bytes in UTF-8
+              ('\u20ac', 1),          # 3 bytes
+              ('\U0001d11e', 1),      # 4 bytes, 2 UTF-16 code units
+              ('e\u0301', 2),         # 2 code points, 1 character after NFC
+              ('\ufb01', 1),          # 1 code point, 2 after NFKC ('fi')
+              ('\xdf', 1)]            # 1 code point, 2 after upper() / casefold() ('ss')
+
+
+def unit_variants(rng, lengths):
+    """strings with exactly n code points (n = each boundary length) whose length in any other unit (encoded bytes,
+    UTF-16 code units, normalised characters) differs from n: one wide unit in an ASCII string at a random position
+    (other measure = n + 1 .. n + 3, or n - 1), and only wide units (other measure = 2n .. 4n, or n / 2)"""
+    out = []
+    for n in lengths:
+        for text, cp in WIDE_UNITS:
+            if n >= cp:
+                k = rng.randrange(n - cp + 1)
+                out.append('x' * k + text + 'x' * (n - cp - k))
+            if n >= 2 * cp:
+                out.append(text * (n // cp) + 'x' * (n % cp))
+    return out
+
+
+def length_variants(rng, lt, wire, grouped=False):
+    """strings / blobs of length exactly min-1, min, min+1, max-1, max, max+1 (ASCII), the same numbers of code points
+    made of characters whose length differs in other units (`unit_variants`), and strings of a valid length holding
+    one special character (NUL, DEL, first non-ASCII, U+FFFF, the characters around the surrogate block, astral).
+    grouped=True: the list of these groups (so that a caller can draw from every group)"""
     lo, hi = lt['min'], lt['max']
     lengths = sorted({n for n in (lo - 1, lo, lo + 1, hi - 1, hi, hi + 1) if 0 <= n <= 400})
-    out = []
+    groups = []
     if lt['t'] == 'blob':
+        out = []
         for n in lengths:
             b = bytes((n + i) % 256 for i in range(n))
             out.append(base64.b64encode(b).decode('ascii') if wire else b)
+        groups.append(out)
         if wire:
-            out += ['=' * 4, 'QQ', 'QUI', 'QUJD\n', ' QUJD', 'QUJD=', 'QQ==QQ==', 'QUJ-']
+            groups.append(['=' * 4, 'QQ', 'QUI', 'QUJD\n', ' QUJD', 'QUJD=', 'QQ==QQ==', 'QUJ-'])
     else:
-        for n in lengths:
-            out.append('x' * n)
+        groups.append(['x' * n for n in lengths])
+        groups.append(unit_variants(rng, [n for n in lengths if n <= 40]))
         n = lo if lo > 0 else min(hi, 3)
+        out = []
         for ch in SPECIAL_CHARS:
             if n >= 1:
                 k = rng.randrange(n)
                 out.append('a' * k + ch + 'a' * (n - k - 1))
-    return out
+        groups.append(out)
+    groups = [g for g in groups if g]
+    return groups if grouped else [x for g in groups for x in g]
 
 
 def numeric_leaf_paths(tree, value):
